@@ -103,7 +103,8 @@ impl UiTokenCollection {
             Some(position) => *position,
             None => {
                 match self.char_sizes.len() == index {
-                    true => index,
+                    /* End of the text, character count is needed, not the byte length */
+                    true => self.char_sizes.last().map_or(0, |position| position + 1),
                     false => {
                         log::error!("{} not found in char map list, returned 0", index);
                         0
